@@ -2560,8 +2560,14 @@ expand_manifest(const CPPManifest *manifest, const YYLTYPE &loc) {
 
   if (manifest->_has_parameters) {
     // Hmm, we're expecting arguments.
-    extract_manifest_args(manifest->_name, manifest->_num_parameters,
-                          manifest->_variadic_param, args);
+    if (!extract_manifest_args(manifest->_name, manifest->_num_parameters,
+                               manifest->_variadic_param, args)) {
+      // We ran into the end of the input before the closing parenthesis.
+      // Don't expand: an expansion that itself ends in an unterminated
+      // invocation (e.g. -D"V(=V(") would otherwise recurse forever.
+      error("unterminated argument list invoking macro " + manifest->_name, loc);
+      return internal_get_next_token();
+    }
   }
 
   // Keep track of the manifests we're supposed to ignore.
@@ -2588,9 +2594,10 @@ expand_manifest(const CPPManifest *manifest, const YYLTYPE &loc) {
 }
 
 /**
- *
+ * Returns false if the end of the input was reached before the closing
+ * parenthesis of the argument list.
  */
-void CPPPreprocessor::
+bool CPPPreprocessor::
 extract_manifest_args(const string &name, int num_args, int va_arg,
                       vector_string &args) {
   CPPFile first_file = get_file();
@@ -2598,6 +2605,7 @@ extract_manifest_args(const string &name, int num_args, int va_arg,
   int first_col = get_col_number();
 
   // Skip whitespace till paren.
+  bool terminated = true;
   int c = _last_c;
   _last_c = '\0';
   if (c == 0) {
@@ -2684,6 +2692,7 @@ extract_manifest_args(const string &name, int num_args, int va_arg,
     if (num_args != 0 || !arg.empty()) {
       args.push_back(trim_blanks(arg));
     }
+    terminated = (c != EOF);
   }
 
   YYLTYPE loc;
@@ -2699,6 +2708,8 @@ extract_manifest_args(const string &name, int num_args, int va_arg,
   } else if (va_arg < 0 && (int)args.size() > num_args) {
     warning("Too many arguments for manifest " + name, loc);
   }
+
+  return terminated;
 }
 
 /**
